@@ -363,6 +363,67 @@ def run(ctx):
         ctx.case(("declined",), True, {"kind": "declined"})
         if ans.calls or ans.body:
             ctx.violation("declined-answers", {"answer": ans.summary()})
+        # a request may be declined from any user callable the request
+        # passes through, not only from the endpoint
+        from poorwsgi.response import HTTPException
+
+        def decline(*args, **kwargs):
+            raise HTTPException(0)
+
+        def boom(req):
+            raise KeyError("k")
+        # (not from an after hook: C03 asks for an error response when an
+        # after hook fails, whatever it raised)
+        for site in ("before", "error-handler", "status-handler", "default"):
+            app3 = new_app()
+            if site == "before":
+                app3.add_before_response(decline)
+                app3.set_route("/r", lambda req: "never")
+            elif site == "error-handler":
+                app3.set_route("/r", boom)
+                app3.set_error_handler(KeyError, decline)
+            elif site == "status-handler":
+                app3.set_route("/r", lambda req: abort(404))
+                app3.set_http_state(404, decline)
+            else:
+                app3.set_default(decline)
+            ans = call(app3, environ(path="/r"))
+            ctx.case(("declined", site), True, {"kind": "declined",
+                                                "site": site})
+            ctx.count("declined")
+            if ans.raised is not None or ans.calls or ans.body:
+                ctx.violation("declined-answers", {
+                    "declined_in": site, "answer": ans.summary()})
+        # aborting with a status that allows no body: whatever page answers
+        # (the built-in one for 304, the 501 page for codes without a page),
+        # an answer whose status is 1xx/204/304 carries no body bytes
+        for code in (204, 304, 100, 101, 102, 103, 205):
+            app3 = new_app()
+            app3.set_route("/r", lambda req, code=code: abort(code), 511)
+            for method in ("GET", "POST", "HEAD"):
+                ans = call(app3, environ(method=method, path="/r"))
+                ctx.case(("abort-nobody", code, method), True,
+                         {"kind": "abort-nobody", "code": code,
+                          "status": ans.status})
+                ctx.count("abort-nobody")
+                if ans.raised is not None or len(ans.calls) != 1:
+                    ctx.violation("emission-failed", {
+                        "kind": "abort-nobody", "code": code,
+                        "answer": ans.summary()})
+                    continue
+                cl = ans.header_all("Content-Length")
+                if (ans.code in (204, 304) or ans.code < 200) and (
+                        ans.body or any(v != "0" for v in cl)):
+                    ctx.violation("nobody", {
+                        "kind": "abort-nobody", "abort": code,
+                        "method": method, "status": ans.status,
+                        "body_len": len(ans.body), "content_length": cl})
+                elif cl and (not cl[0].isdigit() or
+                             int(cl[0]) != len(ans.body)):
+                    ctx.violation("clen-mismatch", {
+                        "kind": "abort-nobody", "abort": code,
+                        "status": ans.status, "content_length": cl,
+                        "body_len": len(ans.body)})
         # ---- built-in pages for every path length
         app2 = new_app()
         for n in (range(0, 301, 7) if ctx.quick else range(0, 301)):
